@@ -563,3 +563,17 @@ func init() {
 		_ = recCut
 	})
 }
+
+func init() {
+	reg("C02-R6", "write-ahead also for the catalog heaps: Catalog.insertTable writes the rows of a new table through ordinary, logged heap inserts of the creating transaction and then flushes the catalog pages itself; with logging on, no path reaches one of those FlushPage calls without LogManager.Flush after the last heap insert — otherwise a crash before the commit leaves catalog rows on the data file that no log record can undo (an uncommitted table, or a table without columns)", func(w *World, r *Report) {
+		a := w.A()
+		fn := w.Fn("catalog", "Catalog", "insertTable")
+		flushes := sitesCalling(fn, a.BPMFlushPage)
+		r.Floor("FlushPage sites in Catalog.insertTable", len(flushes), 1)
+		inserts := sitesCalling(fn, a.THInsert)
+		r.Floor("heap inserts in Catalog.insertTable", len(inserts), 2)
+		fs := a.flushSumm()
+		wit := (&PathQ{Fn: fn, Cut: []EdgeCut{a.assumeLogging()}, Avoid: fs.MustSite, Target: InstrCallsObj(a.BPMFlushPage)}).FromAfter(inserts)
+		r.Check(wit == nil, "Catalog.insertTable:log-forced-before-catalog-pages", "the log records of the catalog rows are on disk before the catalog pages are", "path from a catalog heap insert to FlushPage without LogManager.Flush: "+w.DescribeWitness(fn, wit))
+	})
+}
